@@ -53,18 +53,19 @@ pub fn new_db(scratch: &Path) -> PathBuf {
         }
         t.clone().unwrap()
     };
+    // one directory per database: SQLite creates and unlinks a journal file next to it for every
+    // transaction, and a shared directory would serialise all worker threads on its lock
     let n = COUNTER.fetch_add(1, Ordering::Relaxed);
-    let p = scratch.join(format!("n{n}.sqlite3"));
+    let d = scratch.join(format!("n{n}"));
+    std::fs::create_dir_all(&d).expect("database directory");
+    let p = d.join("cardano-transaction.sqlite3");
     std::fs::copy(&template, &p).expect("copy template database");
     p
 }
 
 pub fn remove_db(p: &Path) {
-    let _ = std::fs::remove_file(p);
-    for ext in ["-journal", "-wal", "-shm"] {
-        let mut s = p.as_os_str().to_owned();
-        s.push(ext);
-        let _ = std::fs::remove_file(PathBuf::from(s));
+    if let Some(d) = p.parent() {
+        let _ = std::fs::remove_dir_all(d);
     }
 }
 
